@@ -4,11 +4,11 @@ go 1.21
 
 require (
 	github.com/anishathalye/porcupine v1.3.0
+	github.com/chzyer/readline v1.5.1
 	github.com/jig/lisp v0.0.0
 )
 
 require (
-	github.com/chzyer/readline v1.5.1 // indirect
 	github.com/davecgh/go-spew v1.1.1 // indirect
 	github.com/google/uuid v1.3.0 // indirect
 	github.com/jig/scanner v1.2.0 // indirect
